@@ -6,6 +6,7 @@
 //! the original list.
 mod damage;
 mod hostreader;
+mod mseg;
 mod readers;
 
 use damage::{apply, enumerate_ops, M};
@@ -27,10 +28,16 @@ fn main() {
     mc::quiet_panics();
     walkit::syncspy::init();
     r.rule("a case is one damaged image: (log, damage operator, position) evaluated by every reader; \
-            distinct_nontrivial counts images whose bytes differ from the original inside a committed record");
-    r.assume("logs are single-segment, 1–3 transactions, built through the real FilesystemWalStore (same builders as C10)");
-    r.assume("a success that returns the complete original history with a clean tail after bytes of a committed record changed counts as undetected damage for bit flips and zeroing; \
-              for record reordering it is counted separately (absorbed by LSN sorting), not as a violation");
+            distinct_nontrivial counts images whose bytes differ from the original inside a committed record. \
+            Multi-segment part: a case is (2-3 segment log, one damage applied to ONE segment file or to the set of files, all other files intact): \
+            every single-segment operator on each segment file in turn, truncation of every non-final segment (every record boundary and zero length; thorough every byte length), \
+            deletion of each segment file, exchange of two segment files, copy of a segment under the next id, overwrite of one segment by another");
+    r.assume("single-segment logs: 1–3 transactions; multi-segment logs: 2–3 segment files (at most 2 transactions per file) produced by rotate_segment and by a new writer \
+              opening the next segment id under a fresh epoch; all built through the real FilesystemWalStore (same builders as C10). \
+              The host reader (enable_runtime_wal) is driven on single-segment host logs only: TrustedRuntimeHost always writes segment 1 and has no rotation call");
+    r.assume("a success that returns the complete original history with a clean tail after bytes of a committed record changed counts as undetected damage for bit flips, zeroing, \
+              truncation, deletion or overwrite of a segment file; for record reordering and for two intact segment files exchanged it is counted separately \
+              (absorbed by LSN sorting), not as a violation");
     let scratch = mc::scratch_root();
 
     if let Some(path) = r.replay.clone() {
@@ -38,7 +45,13 @@ fn main() {
         let v: Value = serde_json::from_str(&txt).unwrap_or(json!(null));
         let case = v["detail"]["case"].clone();
         let mut st = Stats::default();
-        let res = if case.get("host_log").is_some() { hostreader::replay(&case, &mut st) } else { readers::replay(&scratch, &case, &mut st) };
+        let res = if case.get("host_log").is_some() {
+            hostreader::replay(&case, &mut st)
+        } else if case.get("mseg_log").is_some() {
+            mseg::replay(&case, &mut st)
+        } else {
+            readers::replay(&scratch, &case, &mut st)
+        };
         match res {
             Ok(()) => {}
             Err(e) => r.machinery_error(&format!("replay: {e}")),
@@ -133,6 +146,11 @@ fn main() {
         .reduce(Stats::default, Stats::merge);
     let oc2 = st2.outcomes.clone();
     st2.flush(&r);
+
+    // ---- multi-segment logs ------------------------------------------------------------------
+    if std::env::var("C11_ONLY").map_or(true, |o| o.contains("mseg")) {
+        mseg::run(&r);
+    }
 
     // ---- the trusted host as a reader ----------------------------------------------------------
     hostreader::run(&r);
